@@ -67,7 +67,7 @@ theorem dtTypeFuel_origin (dts : List DataType) : ∀ (f id : Nat) (ty : String)
         split at h
         · rename_i hn
           simp only [Option.some.injEq] at h
-          exact Or.inr ⟨t, htm, n, hk, hn.1, hn.2, h.symm⟩
+          exact Or.inr ⟨t, htm, n, hk, hn.1, hn.2.1, h.symm⟩
         · cases h
       | enum es => rw [hk] at h; simp only [Option.some.injEq] at h; exact Or.inl h.symm
       | user b => rw [hk] at h; exact ih b ty h
